@@ -742,6 +742,42 @@ fn bomb(name: &str) -> Vec<u8> {
             b.extend_from_slice(format!("trailer\n<< /Size 5 /Root 1 0 R >>\nstartxref\n{x}\n%%EOF\n").as_bytes());
             b
         }
+        // an object stream whose 20 000 header pairs all name offset 0 of one 100 000-element array (the page's /Annots is one of them)
+        "objstm_repeat" => {
+            let (n_pairs, m) = (20_000usize, 100_000usize);
+            let mut hdr = Vec::new();
+            for i in 0..n_pairs { hdr.extend_from_slice(format!("{} 0 ", 11 + i).as_bytes()); }
+            let mut payload = hdr.clone();
+            payload.push(b'[');
+            payload.extend(b"0 ".repeat(m));
+            payload.push(b']');
+            let z = zl(&payload);
+            let mut b = b"%PDF-1.5\n".to_vec();
+            let mut offs = std::collections::BTreeMap::new();
+            let plain: Vec<(u32, Vec<u8>)> = vec![
+                (1, b"<< /Type /Catalog /Pages 2 0 R >>".to_vec()), (2, b"<< /Type /Pages /Kids [3 0 R] /Count 1 >>".to_vec()),
+                (3, b"<< /Type /Page /Parent 2 0 R /MediaBox [0 0 100 100] /Contents 4 0 R /Annots 11 0 R >>".to_vec()),
+                (4, b"<< /Length 3 >>\nstream\nq Q\nendstream".to_vec()),
+                (9, [format!("<< /Type /ObjStm /N {n_pairs} /First {} /Filter /FlateDecode /Length {} >>\nstream\n", hdr.len(), z.len()).as_bytes(), &z, b"\nendstream".as_slice()].concat())];
+            for (k, body) in &plain {
+                offs.insert(*k, b.len() as u32);
+                b.extend_from_slice(format!("{k} 0 obj\n").as_bytes());
+                b.extend_from_slice(body);
+                b.extend_from_slice(b"\nendobj\n");
+            }
+            let x = b.len() as u32;
+            let mut rows = Vec::new();
+            for i in 0..12u32 {
+                let (t, a, g): (u8, u32, u16) = if i == 0 { (0, 0, 65535) } else if let Some(o) = offs.get(&i) { (1, *o, 0) } else if i == 10 { (1, x, 0) } else if i == 11 { (2, 9, 0) } else { (0, 0, 0) };
+                rows.push(t);
+                rows.extend_from_slice(&a.to_be_bytes());
+                rows.extend_from_slice(&g.to_be_bytes());
+            }
+            b.extend_from_slice(format!("10 0 obj\n<< /Type /XRef /Size 12 /W [1 4 2] /Root 1 0 R /Length {} >>\nstream\n", rows.len()).as_bytes());
+            b.extend_from_slice(&rows);
+            b.extend_from_slice(format!("\nendstream\nendobj\nstartxref\n{x}\n%%EOF\n").as_bytes());
+            b
+        }
         // CCITT images whose declared geometry is far beyond their (empty) data
         "ccitt_columns" | "ccitt_rows" => {
             let parms = if name == "ccitt_columns" { "/K 0 /Columns 4294967295" } else { "/K -1 /Columns 80000 /Rows 400000" };
